@@ -795,3 +795,40 @@ def m_array_map(it, st, callee, args, dest_tid, site):
         if len(states) > 64:
             raise Unsupported('array::map: too many paths')
     return [(s, Agg('array', dest_tid, vals)) for s, vals in states]
+
+def _checked_divrem(op):
+    """checked_div / checked_rem on unsigned integers: None iff the divisor is zero"""
+    def m(it, st, callee, args, dest_tid, site):
+        a, b = args
+        zero = X.binop('eq', b, X.const(b.ty, 0))
+        val = X.binop(op, a, b, wrap=False) if not (b.is_const and b.val == 0) else None
+        dec = it.decide(st, zero)
+        if dec is True:
+            return [(st, none(it, dest_tid))]
+        if dec is False:
+            return [(st, some(it, dest_tid, val))]
+        s2 = st.clone()
+        out = []
+        try:
+            st.assume(X.unop('not', zero)); out.append((st, some(it, dest_tid, val)))
+        except PathEnd:
+            pass
+        try:
+            s2.assume(zero); out.append((s2, none(it, dest_tid)))
+        except PathEnd:
+            pass
+        return out
+    return m
+for _t in ('usize', 'u32', 'u64', 'u16', 'u8'):
+    for _op, _nm in (('div', 'checked_div'), ('rem', 'checked_rem')):
+        _EXACT[f'core::num::<impl {_t}>::{_nm}'] = _checked_divrem(_op)
+        MODEL_DOC[f'core::num::<impl {_t}>::{_nm}'] = 'checked unsigned division / remainder: None iff the divisor is zero'
+
+@model('std::vec::Vec::<T, A>::is_empty', doc='len() == 0')
+def m_vec_is_empty(it, st, callee, args, dest_tid, site):
+    v = vec_of(it, st, args[0])
+    return [(st, X.binop('eq', st.heap[v.f['buf']].len, usz(0)))]
+
+@model('core::slice::<impl [T]>::is_empty', doc='len() == 0')
+def m_slice_is_empty(it, st, callee, args, dest_tid, site):
+    return [(st, X.binop('eq', as_slice(it, st, args[0]).len, usz(0)))]
